@@ -346,6 +346,82 @@ def rule_B(prog, chk):
     chk.floor("B", n, 6)
 
 
+def rule_D(prog, chk):
+    """D - no status of the stream is dropped.  In the `_serialize` / `_deserialize` functions the idiom is `ret = ret && step(..)`; a
+    statement `ret && step(..);` evaluates the step and throws its status away: a failure while writing / reading that part is reported
+    as a success.
+    V - a reader sizes a member vector before it writes its elements (`_imageRadius[idim] = ..` into the empty vector of a freshly
+    constructed object crashed every reload of a NeighImage).
+    W - a writer that could not open its file does not report success: in the functions that call `_fileOpenWrite`, the status they
+    return is not `true` on the path where the open failed."""
+    n = nv = nw = 0
+    for f in sorted(prog.funcs, key=lambda x: (x.file, x.line)):
+        if f.body is None:
+            continue
+        if f.short in ("_serialize", "_deserialize"):
+            for x in f.walk():
+                if x["k"] == "BinOp" and x.get("op") in ("&&", "||"):
+                    par = f.parent(x)
+                    is_stmt = par is not None and (par["k"] == "Block" or (par["k"] in ("For", "While", "ForRange", "Do", "If") and par["c"][-1] is x and par["k"] != "If") or
+                                                   (par["k"] == "If" and (par["c"][-2] is x or par["c"][-1] is x)))
+                    if is_stmt:
+                        n += 1
+                        chk.analysed(f)
+                        chk.ob("D", "%s: the status of `%s` is kept" % (f.name, show(x)[:50]), f.loc(x), False,
+                               detail="the expression is evaluated as a statement: the status of its right-hand step is thrown away (the idiom is `ret = ret && ..`)",
+                               key="D|%s|%s" % (f.name, show(x)[:50]))
+                if x["k"] == "Assign" and x.get("op") == "=" and x["c"][1] is not None and x["c"][1]["k"] == "BinOp" and x["c"][1].get("op") == "&&":
+                    n += 1
+                    chk.ob("D", "%s: the status of `%s` is kept" % (f.name, show(x["c"][1])[:50]), f.loc(x), True, key="D|%s|%s|ok%d" % (f.name, show(x["c"][1])[:30], n))
+        if f.short == "_deserialize" and f.cfg is not None:
+            sized = {}
+            writes = []
+            for x in f.walk():
+                if x["k"] == "MCall" and (x.get("callee") or "").split("::")[-1] in ("resize", "assign", "push_back"):
+                    o = call_obj(x)
+                    if o is not None and o["k"] == "MemberExpr" and o.get("mk") == "field":
+                        sized.setdefault(o["n"], x)
+                if x["k"] in ("Assign", "OpCall") and x.get("op") == "=" and x["c"][0] is not None:
+                    l = x["c"][0]
+                    if l["k"] == "MemberExpr" and l.get("mk") == "field":
+                        sized.setdefault(l["n"], x)
+                    if (l["k"] == "Index" or (l["k"] == "OpCall" and l.get("op") == "[]")) and l["c"][0] is not None and l["c"][0]["k"] == "MemberExpr" and \
+                            l["c"][0].get("mk") == "field" and "Vector" in (l["c"][0].get("t") or ""):
+                        writes.append((l["c"][0]["n"], x))
+            for m_, x in writes:
+                nv += 1
+                ok = m_ in sized and (sized[m_].get("l") or 0) <= (x.get("l") or 0)
+                chk.analysed(f)
+                chk.ob("V", "%s: `%s` is sized before its elements are written" % (f.name, m_), f.loc(x), ok,
+                       detail=None if ok else "the reader writes `%s[..]` and never sizes the vector: on a freshly constructed object (what createFromNF uses) the write is "
+                       "outside the vector" % m_, key="V|%s|%s" % (f.name, m_))
+        opens = [c for c in f.calls() if (c.get("callee") or "").split("::")[-1] == "_fileOpenWrite"]
+        if opens and f.ret.startswith("bool"):
+            rets = [r for r in f.walk() if r["k"] == "Return" and r.get("c") and r["c"][0] is not None]
+            for r in rets:
+                v = r["c"][0]
+                while v is not None and v["k"] == "Cast":
+                    v = v["c"][0]
+                if v is None or v["k"] != "DeclRefExpr":
+                    continue
+                init = None
+                for x in f.walk():
+                    if x["k"] == "VarDecl" and x.get("d") == v.get("d") and x.get("c") and x["c"][0] is not None:
+                        init = x["c"][0]
+                nw += 1
+                # guarded by `if (open)` without else: the initial value is what a failed open returns
+                starts_true = init is not None and init["k"] == "Bool" and init["v"] is True
+                guarded = any(x["k"] == "If" and x["c"][-1] is None and any(y["i"] == opens[0]["i"] for y in walk(x["c"][-3])) for x in f.walk())
+                bad = starts_true and guarded
+                chk.analysed(f)
+                chk.ob("W", "%s: a failed open is not reported as a success" % f.name, f.loc(r), not bad,
+                       detail=None if not bad else "`%s` starts as true and is only assigned when the file could be opened: when _fileOpenWrite fails the function returns true" % v["n"],
+                       key="W|%s" % f.name)
+    chk.floor("D", n, 100)
+    chk.floor("V", nv, 1)
+    chk.floor("W", nw, 1)
+
+
 def main(tier):
     chk = Check("C08", tier,
                 "Static writer/reader agreement of the neutral-file stream of each serialisable class (structural simulation of the "
@@ -384,6 +460,7 @@ def main(tier):
     c08_order.rule_O(oprog, chk, 2)
     rule_K(prog, chk)
     rule_B(oprog, chk)
+    rule_D(prog, chk)
     return chk.finish()
 
 
